@@ -20,7 +20,8 @@ THEOREMS = ['C04_init_world_inv', 'C04_step_local', 'C04_step_noninterference', 
             'C04_same_engine_slots_K', 'C04_slots_alone_K', 'C04_step_footprint_agree', 'C04_step_footprint_writes',
             'C04_same_engine_slots', 'C04_slots_alone', 'C04_slots_none', 'C04_slots_start', 'C04_reach_invariant', 'C04_reach_sinv',
             'C04_disjoint_queries_alone_K', 'C04_disjoint_queries_alone', 'C04_disjoint_queries_alone_writes_refuted',
-            'C04_world_disjoint_queries_alone_K', 'C04_world_disjoint_queries_alone', 'C04_unify_frame']
+            'C04_world_disjoint_queries_alone_K', 'C04_world_disjoint_queries_alone', 'C04_unify_frame',
+            'C04_generator_step_frame', 'C04_meta_steps_silent']
 RULE = ('2-3 engines, histories of 6-24 operations each over {atom, assert_fact/assertz/asserta (3 API variants), retract/'
         'retractall (4 API variants), register_function (fixed/variadic), load_script_from_string of compiled Prolog '
         '(overwrite and chained; the same text in several engines, and different texts defining the same names; in half of the '
